@@ -168,7 +168,7 @@ func runShard(leg string, shard, of int, thorough bool, budget time.Duration) {
 	case "bytes":
 		legBytes(c, thorough)
 	case "include":
-		legIncludeShard(c)
+		legIncludeShard(c, thorough)
 	default:
 		fmt.Fprintln(os.Stderr, "unknown leg", leg)
 		os.Exit(2)
